@@ -14,10 +14,15 @@ pub assume_specification<T, U, F> [std::option::Option::<T>::map_or] (o: std::op
     requires o is Some ==> call_requires(f, (o->0,)),
     ensures match o { Some(v) => call_ensures(f, (v,), r), None => r == d };
 
+// value of `Default::default()`; only the `&str` instance is characterised (the empty string)
+pub uninterp spec fn default_value<T>() -> T;
+#[verifier::external_body]
+pub broadcast proof fn axiom_default_str<'a>() ensures (#[trigger] default_value::<&'a str>())@ == Seq::<char>::empty() {}
+
 #[verifier::allow(undeclared_external_trait)]
 pub assume_specification<T, E> [std::result::Result::<T, E>::unwrap_or_default] (r: std::result::Result<T, E>) -> (o: T)
     where E: std::marker::Destruct, T: std::default::Default + std::marker::Destruct,
-    ensures r is Ok ==> o == r->Ok_0;
+    ensures match r { Ok(v) => o == v, Err(_) => o == default_value::<T>() };
 
 #[verifier::allow(undeclared_external_trait)]
 pub assume_specification<T> [bool::then_some] (b: bool, v: T) -> (r: std::option::Option<T>)
